@@ -1,5 +1,6 @@
 """Pointwise enclosure checks: Coq (interval tactic) proves that the real-valued model at the given,
 decimal-exact arguments lies within a tolerance of the float the implementation returned."""
+import math
 import re
 from concurrent.futures import ThreadPoolExecutor
 from pathlib import Path
@@ -34,11 +35,15 @@ def enclosure_check(workdir, name, requires, cases, shard=40, timeout=900, prec=
     for old in workdir.glob(f"{name}_*.v*"):
         old.unlink()
     files = []
+    nonfinite = set()
     for k in range(0, len(cases), shard):
         f = workdir / f"{name}_{k//shard:04d}.v"
         out = [HEADER.format(requires=requires)]
         for j, c in enumerate(cases[k:k + shard]):
             n = k + j
+            if not (math.isfinite(float(c["value"])) and math.isfinite(float(c["tol"]))):
+                nonfinite.add(n)
+                continue
             extra = c.get("extra", "")
             params = f"i_prec {prec}" + (", " + extra if extra else "")
             out.append(f"Goal Rabs ({c['expr']} - {rlit(c['value'])}) <= {rlit(c['tol'])}.\n"
@@ -46,6 +51,8 @@ def enclosure_check(workdir, name, requires, cases, shard=40, timeout=900, prec=
         f.write_text("\n".join(out) + "\n")
         files.append(f)
     res = ["ERROR"] * len(cases)
+    for n in nonfinite:
+        res[n] = "FAIL"          # the implementation returned inf/nan where the model is a real number
     logs = []
 
     def run(f):
